@@ -13,6 +13,12 @@ All statements are about `Iwp.transition1` / `Iwp.transitionDense` of `Pdq.Model
 the driver executes), seen through the abstraction maps of `Pdq.Bridge`, for every order `q`, every
 dimension `d` and every field of characteristic 0.  `h ≠ 0` is needed because the code's `to_latent`
 divides by `h^(q-i)`; the property's quantifier is `h > 0`.
+
+Factorisations: the isotropic transition *is* `Iwp.transition1 q h s2` with `s2 = (output_scale · base scale)²` (one
+`(q+1)×(q+1)` problem shared by all dimensions), the block-diagonal one is `Iwp.transition1 q h s2_a` per dimension `a`
+with `s2_a = (output_scale_a · base scale_a)²`, the dense one is `Iwp.transitionDense q d h s2 lam2` with
+`s2 = output_scale²`, `lam2_a = base scale_a²` — this mapping is what the correspondence check `harness/checks/c09.py`
+verifies against the real classes; the theorems below then hold for each of them.
 -/
 set_option linter.unusedSectionVars false
 open Matrix Finset Polynomial
